@@ -53,6 +53,71 @@ def corpus():
     return [("un", ("proj", [a]), mp.DEFAULT, ("un", ("calc", K(3), ("neg", ("ref", a))), mp.DEFAULT, leaf))]
 
 
+def raw_build(p, w):
+    """The tree of an SQL-engine program assembled bottom-up WITHOUT the engine's help (no SELECT markers, no
+    simplification): plain LeafRelation / UnaryOperationRelation / BinaryOperationRelation objects."""
+    k = p[0]
+    eng = w.engine(("sql", 0))
+    if k == "leaf":
+        n, _e, cols, rows = p[1:5]
+        t = w.sql_table(n, cols, rows)
+        w.reg.names[f"L{n}"] = n
+        mn, mx = mp.leaf_bounds(p)
+        return dr.LeafRelation(eng, frozenset(cols), sql.Payload(t, columns_available={c: t.columns[c.qualified_name] for c in cols}),
+                               name=f"L{n}", min_rows=mn, max_rows=mx)
+    if k in ("un", "item"):
+        t = raw_build(p[3] if k == "un" else p[4], w)
+        op = enc.iop(p[1]) if k == "un" else dr.Slice(p[1] or 0, p[2])
+        return dr.UnaryOperationRelation(operation=op, target=t, columns=op.applied_columns(t))
+    if k in ("chain", "join"):
+        l, r = (raw_build(p[1], w), raw_build(p[2], w)) if k == "chain" else (raw_build(p[4], w), raw_build(p[5], w))
+        if k == "chain":
+            op = dr.Chain()
+        else:
+            common = frozenset(c for c in l.columns & r.columns if c.is_key)
+            op = dr.Join(dr.Predicate.literal(True) if p[1] is None else enc.ipred(p[1]), min_columns=common, max_columns=common)
+        return dr.BinaryOperationRelation(operation=op, lhs=l, rhs=r, columns=op.applied_columns(l, r))
+    raise ValueError(p)
+
+
+def raw_cases(rng, n):
+    """Raw trees, conformed and executed on SQLite under both scan orders (rows must be the program's)."""
+    import sqlprog as sp
+    import gen
+    out, refused = [], 0
+    for _ in range(n):
+        p, cols, ordered = sp.gen_sqlprog(rng, rng.choice([1, 2, 3, 4, 5]))
+        if rng.random() < 0.4:
+            # windows the generator reaches rarely, below a binary operation: empty [0:0] / [k:k], one row, offset only
+            win = rng.choice([(0, 0), (0, 0), (1, 1), (0, 1), (2, None)])
+            counter = [50]
+            q = mp.gen_leaf(rng, 51, sorted({c for c in cols if c.is_key and rng.random() < 0.7} | {gen.fresh_tag(rng, set(cols))}),
+                            ("sql", 0), special=0)
+            terms = sp.total_sort_terms(rng, set(cols))
+            inner = ("un", ("slice", win[0], win[1]), mp.DEFAULT, ("un", ("sort", terms), mp.DEFAULT, p)) if cols else \
+                ("un", ("slice", win[0], win[1]), mp.DEFAULT, p)
+            p = ("join", None, True, False, inner, q) if rng.random() < 0.6 else ("join", None, True, False, q, inner)
+            ordered = False
+        w = mp.World()
+        try:
+            raw = raw_build(p, w)
+        except Exception:  # noqa: BLE001 — the operation classes reject the parameters themselves
+            continue
+        try:
+            rel = w.engine(("sql", 0)).conform(raw)
+        except dr.RelationalAlgebraError:
+            refused += 1                 # documented refusal (a sort that would be buried)
+            continue
+        try:
+            a, b = sp.execute_both(w, rel)
+        except Exception:  # noqa: BLE001 — C08's concern
+            continue
+        out.append({"json": {"raw_program": jsonable(p), "conformed": str(rel), "rows": jsonable(a)},
+                    "coq": f"RAWCase {mp.cprog(p)} {mp.cenv(p)} {enc.crows(a)} {enc.crows(b)} {0 if ordered else 1}%N",
+                    "nontrivial": True, "key": mp.cprog(p)})
+    return out, refused
+
+
 def make_cases(rng, tier):
     n = 900 if tier == "quick" else 20000
     cases, extra_bad = [], []
@@ -86,17 +151,22 @@ def run(ctx):
             16: "a SQL-engine relation produced by the factories is not a SELECT marker"}
     summ = core.judge(ctx, cases, HDR, "check_struct_c17", bits=bits, signature_of=signature)
     found |= summ["spec_failures"] > 0
+    raws, refused = raw_cases(rng, 250 if ctx.tier == "quick" else 6000)
+    rsumm = core.judge(ctx, raws, "From DR Require Import Model.CheckMulti.\nOpen Scope Z_scope.\n", "check_raw", prefix="cases_C17raw",
+                       bits={4: "conforming a raw tree changed its rows (database result, both scan orders, against the specification)"})
+    found |= rsumm["spec_failures"] > 0
     core.conclude_s1(ctx, s1, found or bool(ctx.violations))
     ctx.coverage.update({
         "evaluations": len(cases), "distinct_nontrivial": len({c["key"] for c in cases if c["nontrivial"]}),
         "rule": "SQL-engine (and mixed) programs built incrementally through the API; every SELECT marker of the real tree "
                 "is walked and compared with its recorded slots; conform(conformed) is checked for object identity; "
                 "non-trivial = at least two SELECT markers in the tree",
-        "traces_validated_against_impl": summ["evaluated"], "judgement": summ, "python_side_problems": len(extra_bad),
+        "traces_validated_against_impl": summ["evaluated"] + rsumm["evaluated"], "judgement": summ, "python_side_problems": len(extra_bad),
+        "raw_trees_conformed_and_executed": rsumm, "raw_trees_refused_for_order_loss": refused,
         "samples": [cases[1]["json"]["program"], cases[-1]["json"]["program"]],
     })
-    ctx.assumptions += ["content preservation of conform is C02's theorem; raw (hand-assembled) trees are conformed through "
-                        "the same rules and are exercised there"]
+    ctx.assumptions += ["content preservation of the conformation rules is C02's theorem (layer a); here raw trees assembled "
+                        "without the engine are conformed by the real engine, executed on SQLite and compared with the specification"]
 
 
 def replay(ctx, path):
